@@ -52,6 +52,8 @@ inductive Expr where
   | dictComp (key value : Expr) (target : String) (iter : Expr)
   /-- `[elt for target in iter]` (one generator, no condition) -/
   | listComp (elt : Expr) (target : String) (iter : Expr)
+  /-- `[elt for target in iter if cond]` (one generator, one condition) -/
+  | listCompIf (elt : Expr) (target : String) (iter cond : Expr)
   /-- anything else (f-strings, lambdas, comprehensions …), kept as canonical source text -/
   | other (src : String)
   deriving Repr, Inhabited
@@ -159,6 +161,15 @@ def compList (f : V → m V) : List V → m (List V)
     let xs ← compList f vs
     pure (x :: xs)
 
+/-- the elements of a conditional comprehension: `f` gives the element for one value of the iterable, or nothing when the
+condition fails for it -/
+def compListIf (f : V → m (Option V)) : List V → m (List V)
+  | [] => pure []
+  | v :: vs => do
+    let x ← f v
+    let xs ← compListIf f vs
+    pure (match x with | some y => y :: xs | none => xs)
+
 /-- the pairs of a comprehension: `f` evaluates key and value for one element -/
 def compPairs (f : V → m (V × V)) : List V → m (List (V × V))
   | [] => pure []
@@ -216,6 +227,13 @@ def evalExpr (w : World m V) (loc : Locals V) : Expr → m V
     let iv ← evalExpr w loc it
     let xs ← w.iter iv
     let vs ← compList (fun x => evalExpr w (loc.set t x) e) xs
+    w.newList vs
+  | .listCompIf e t it c => do
+    let iv ← evalExpr w loc it
+    let xs ← w.iter iv
+    let vs ← compListIf (fun x => do
+      let cv ← evalExpr w (loc.set t x) c
+      if (← w.truthy cv) then some <$> evalExpr w (loc.set t x) e else pure none) xs
     w.newList vs
   | .other s => w.other s
 
